@@ -404,6 +404,22 @@ func (c13) Run(plan interface{}, schedSeed uint64, replay []simrt.Choice, lenien
 			v.Probe("send-cancelled-between-packets")
 		}
 	}
+	// how long Close may take: a logout that is answered (or no logout at all: logical channels) needs no waiting,
+	// a late answer is waited for, and only a missing or incomplete one takes the logout timeout of one minute
+	closeBound := 61 * time.Second
+	usesLogout := !p.Logical || p.Kind == "conn-close" || (p.Kind == "close-errqueue" && p.ConnClose)
+	switch {
+	case !usesLogout, p.Logout == "answer":
+		closeBound = time.Second
+	case p.Logout == "late" && p.LateMs < 60000:
+		closeBound = time.Duration(p.LateMs)*time.Millisecond + time.Second
+	}
+	// (only where nobody else receives on the channel: a consumer blocked on it may take the logout's answer)
+	// and the reader is free to read the answer: peer alive, no package queue overflowing
+	quiet := ((p.Kind == "closed-calls" && !p.ConcurrentClose) || p.Kind == "conn-close") && !p.DeadPeer && c13Pending(p) <= p.QueueSize
+	if quiet && res.closeDone && res.closeEnd-res.closeStart > closeBound && res.closeEnd-res.closeStart <= 61*time.Second && p.StallWindow < 0 {
+		v.Violate("slow-close", "close took longer than its logout needs", "%s (logout %s, late by %d ms, logical=%v): Close took %v of simulated time, %v would do", p.Kind, p.Logout, p.LateMs, p.Logical, res.closeEnd-res.closeStart, closeBound)
+	}
 	if res.closeDone && res.closeEnd-res.closeStart > 61*time.Second {
 		v.Violate("slow-close", "close took longer than the logout timeout", "%s: Close took %v of simulated time", p.Kind, res.closeEnd-res.closeStart)
 	}
